@@ -216,6 +216,40 @@ func factsC05(repo, out string) error {
 		}
 	}
 
+	// the view collections the model treats as stateless (Pool.stateless_types): their struct fields
+	viewNames := map[string]bool{"SizeCollection": true, "ConcatKeyed": true, "ConcatCollection": true, "NamedCollectionNames": true}
+	var viewFields []string
+	for _, f := range cp.files {
+		for _, d := range f.Decls {
+			gd, ok := d.(*ast.GenDecl)
+			if !ok {
+				continue
+			}
+			for _, sp := range gd.Specs {
+				ts, ok := sp.(*ast.TypeSpec)
+				if !ok || !viewNames[ts.Name.Name] {
+					continue
+				}
+				st, ok := ts.Type.(*ast.StructType)
+				if !ok {
+					continue
+				}
+				for _, fl := range st.Fields.List {
+					names := []string{"<embedded>"}
+					if len(fl.Names) > 0 {
+						names = nil
+						for _, n := range fl.Names {
+							names = append(names, n.Name)
+						}
+					}
+					for _, n := range names {
+						viewFields = append(viewFields, "("+coqStr(ts.Name.Name+"."+n)+", "+coqStr(strings.Join(strings.Fields(cp.src(fl.Type)), ""))+")")
+					}
+				}
+			}
+		}
+	}
+
 	var b strings.Builder
 	b.WriteString("(* GENERATED by verif-facts C05 from " + repo + "/internal/corazawaf — do not edit *)\n")
 	b.WriteString("From Coq Require Import String List Bool.\nFrom Verif Require Import Pool PoolProofs.\nImport ListNotations.\nOpen Scope string_scope.\n\n")
@@ -234,7 +268,8 @@ func factsC05(repo, out string) error {
 	fmt.Fprintf(&b, "Definition types_with_Reset : list string := %s.\n", coqStrList(uniq(resetTypes)))
 	fmt.Fprintf(&b, "Definition reset_goes_through_All : bool := %v.\n", resetViaAll)
 	fmt.Fprintf(&b, "Definition close_calls : list string := %s.\n", coqStrList(closeFacts))
-	fmt.Fprintf(&b, "Definition eval_clears_transformation_cache : bool := %v.\n\n", evalClears)
+	fmt.Fprintf(&b, "Definition eval_clears_transformation_cache : bool := %v.\n", evalClears)
+	fmt.Fprintf(&b, "Definition view_struct_fields : list (string * string) := [%s].\n\n", strings.Join(viewFields, "; "))
 	b.WriteString(`Definition src : Pool.source_facts :=
   {| Pool.sf_tx_fields := tx_fields;
      Pool.sf_assigned_always := tx_assigned_always;
@@ -260,6 +295,11 @@ Proof. vm_compute. reflexivity. Qed.
 (* Close resets variables and both buffers and returns the object to the pool; reset iterates All;
    Eval clears the transformation cache *)
 Theorem close_structure : Pool.close_ok src = true.
+Proof. vm_compute. reflexivity. Qed.
+
+(* the view collections (sizes, names, concatenations) hold references to other collections and their
+   variable id only: nothing of their own that a transaction could leave behind (no Reset needed) *)
+Theorem views_hold_no_state : Pool.views_ok view_struct_fields = true.
 Proof. vm_compute. reflexivity. Qed.
 
 (* the parametric isolation theorem of PoolProofs.v, instantiated with what the source says now *)
